@@ -2,7 +2,7 @@ import MaddyVerif.Model.CheckRunner
 import Driver.Util
 /-! Line protocol of C06 (see harness/internal/msgpipeline/zz_verif_c06_test.go):
 
-`run <mode> <dmarc> <global> <source> <blocks> <targets> <rcpts> <scripts> <delays> [Q]`
+`run <mode> <dmarc> <global> <source> <blocks> <targets> <rcpts> <scripts> <delays> [Q] [m=<faults>]`
   mode     smtp | lmtp
   dmarc    off | pass | quar | rej
   global   check ids `0.2` or `-`;  source likewise
@@ -13,6 +13,11 @@ import Driver.Util
            characters: raw result 0-5 and action i|q|r (FailAction applied to the raw result)
   delays   `;`-separated per check, four digits (conn, sender, rcpt, body): completion order
   Q        `MsgMetadata.Quarantine` is already set when `Start` is called (`Cfg.q0`)
+  m=<sender>/<rcpt>/<body>   failures of the modifier groups (`Cfg.mf`), each part `-` or a `,`-list:
+           sender `g:<k>` | `s:<k>` (RewriteSender of the global / source modifiers),
+           rcpt `<id>:<g|s|b><k>` (RewriteRcpt of the global / source / the recipient's block's modifiers),
+           body `g:<k>` | `s:<k>` | `<block>:<k>` (RewriteBody); `<k>` = t (temporary) | p (permanent) -
+           the pipeline hands either back unchanged, the model does not distinguish them
 `nest <mode> <dmarc> <global> <source> <blocks> <targets> <rcpts> <scripts> <delays> <Q|->
       // <dmarc> <global> <source> <blocks> <targets> <routes> <scripts> <delays>`
   a pipeline (after `//`) used as a delivery target of the first one: target kind `px` in the outer
@@ -169,6 +174,7 @@ def showObs (m : Mode) (cfg : Cfg) (nChecks : Nat) (ob : Obs) : String :=
     | some b => match b.refused with
       | some .check => "chk"
       | some .dmarc => "dmarc"
+      | some .modifier => "mod"
       | none => if m == Mode.lmtp || b.results.all (fun x => x.2.2) then "ok" else "tgt"
   let acc := sortNat (dedupNat ((ob.rcpts.filter (fun x => !x.2)).map (fun x => x.1)))
   let dl := delivered m ob
@@ -184,7 +190,45 @@ def showObs (m : Mode) (cfg : Cfg) (nChecks : Nat) (ob : Obs) : String :=
     showLog nChecks keep ob.final.cr.done
 
 /-- One pipeline's tokens → configuration, number of checks, recipient table, completion order. -/
-def parseCfg (dm g s blocks scripts delays rcpts : String) (ts : List Tgt) (q0 : Bool) :
+def parseKV (s : String) : Option (String × String) :=
+  match s.splitOn ":" with
+  | [a, b] => some (a, b)
+  | _ => none
+
+def kvList (s : String) : Option (List (String × String)) :=
+  if s == "-" then some [] else (s.splitOn ",").mapM parseKV
+
+def isKind (s : String) : Bool := s == "t" || s == "p"
+
+/-- The `m=` token. -/
+def parseMF (tok : String) : Option MFaults :=
+  match tok.splitOn "=" with
+  | ["m", spec] =>
+    match spec.splitOn "/" with
+    | [se, rc, bo] => do
+      let ses ← kvList se
+      let rcs ← kvList rc
+      let bos ← kvList bo
+      if !(ses.all (fun p => (p.1 == "g" || p.1 == "s") && isKind p.2)) then none else
+      let rcs' ← rcs.mapM (fun p => do
+        let id ← p.1.toNat?
+        match p.2.toList with
+        | [sc, k] => if (sc == 'g' || sc == 's' || sc == 'b') && (k == 't' || k == 'p') then some (id, sc) else none
+        | _ => none)
+      if !(bos.all (fun p => (p.1 == "g" || p.1 == "s" || p.1.toNat?.isSome) && isKind p.2)) then none else
+      pure {
+        senderG := ses.any (fun p => p.1 == "g")
+        senderS := ses.any (fun p => p.1 == "s")
+        rcptG := fun r => rcs'.any (fun p => p.1 == r && p.2 == 'g')
+        rcptS := fun r => rcs'.any (fun p => p.1 == r && p.2 == 's')
+        rcptB := fun r => rcs'.any (fun p => p.1 == r && p.2 == 'b')
+        bodyG := bos.any (fun p => p.1 == "g")
+        bodyS := bos.any (fun p => p.1 == "s")
+        bodyB := fun b => bos.any (fun p => p.1.toNat? == some b) }
+    | _ => none
+  | _ => none
+
+def parseCfg (dm g s blocks scripts delays rcpts : String) (ts : List Tgt) (q0 : Bool) (mf : MFaults := MFaults.none) :
     Option (Cfg × Nat × List (Nat × Nat) × Ord × List Script) := do
   let dm ← dmarc? dm
   let g ← ids? g
@@ -204,7 +248,8 @@ def parseCfg (dm g s blocks scripts delays rcpts : String) (ts : List Tgt) (q0 :
       | none => 0
     tgt := fun t => (ts[t]?).getD ⟨false, false⟩
     dmarc := dm
-    q0 := q0 }
+    q0 := q0
+    mf := mf }
   pure (cfg, ss.length, rs, ordOf ds, ss)
 
 def scriptRejects (s : Script) : Bool :=
@@ -240,6 +285,7 @@ def showNest (m : Mode) (cfgO : Cfg) (nO : Nat) (ordO : Ord) (rsO : List Rcpt) (
     | some b => match b.refused with
       | some .check => "chk"
       | some .dmarc => "dmarc"
+      | some .modifier => "mod"
       | none => if m == Mode.smtp && innerRan && !innerAccepts then "tgt" else "ok"
   let acc := sortNat (dedupNat accO)
   let dlI := delivered m obI
@@ -272,12 +318,14 @@ def handle : List String → String
   | "run" :: mode :: dm :: g :: s :: blocks :: tgts :: rcpts :: scripts :: delays :: flag =>
     let r : Option String := do
       let m ← if mode == "smtp" then some Mode.smtp else if mode == "lmtp" then some Mode.lmtp else none
-      let q0 ← match flag with
-        | [] => some false
-        | ["Q"] => some true
+      let (q0, mf) ← match flag with
+        | [] => some (false, MFaults.none)
+        | ["Q"] => some (true, MFaults.none)
+        | ["Q", x] => (parseMF x).map (fun f => (true, f))
+        | [x] => (parseMF x).map (fun f => (false, f))
         | _ => none
       let ts ← (tgts.splitOn ",").mapM parseTgt
-      let (cfg, n, rs, ord, _) ← parseCfg dm g s blocks scripts delays rcpts ts q0
+      let (cfg, n, rs, ord, _) ← parseCfg dm g s blocks scripts delays rcpts ts q0 mf
       pure (showObs m cfg n (run ord cfg m (rs.map (fun p => p.1))))
     r.getD "bad-op"
   | ["nest", mode, dm, g, s, blocks, tgts, rcpts, scripts, delays, flag, "//",
